@@ -118,6 +118,7 @@ def states():
     for internal in (False, True):
         out.append(dict(id=f'selective/{"internal" if internal else "pruned"}', listed=[OPS, IAM, LOC], ruled=list(CANON),
                         selective=(internal, ['Lib.GetBook']), own_iam=False, legacy=False))
+    out.append(dict(id='subpackages-only', listed=[OPS, IAM, LOC], ruled=list(CANON), own_iam=False, legacy=False, layout='subpackages'))
     out.append(dict(id='no-yaml', listed=None, ruled=[], own_iam=False, legacy=False))
     return out
 
@@ -156,14 +157,26 @@ def build(st, transport):
         other = service(st['own_svc'], [method('GetVaultBook', Q('GetBookRequest'), Q('Book'), http=('get', '/v1/{name=vaults/*}')), own])
         svcs = [other] + svcs if st.get('own_first') else svcs + [other]
     f = file('acme/mix/v1/mix.proto', P, messages=msgs, services=svcs)
+    files = [f]
+    if st.get('layout') == 'subpackages':
+        # every file of the API sits in a proto sub-package (resources / services); the service is rendered through a sub-package view
+        from google.protobuf import text_format
+        txt = text_format.MessageToString(f).replace(P, P + '.api').replace('acme/mix/v1/', 'acme/mix/v1/api/')
+        f = type(f)()
+        text_format.Parse(txt, f)
+        res = file('acme/mix/v1/resources/res.proto', P + '.resources', messages=[message('Widget', [field('name', 1, 'string')])])
+        res.dependency.extend(desc.std_dep_names(mods))
+        files = [res, f]
     param = f'transport={transport},autogen-snippets=false'
     of = None
     if st['listed'] is not None:
         param += ',service-yaml=@svc.yaml@'
         of = {'svc.yaml': yaml_of(st['listed'], st['ruled'], st.get('stale', ()), st.get('selective'))}
+        if st.get('layout') == 'subpackages':
+            of['svc.yaml'] = of['svc.yaml'].replace(f'- name: {P}.Lib', f'- name: {P}.api.Lib')
     if st['legacy']:
         param += ',add-iam-methods'
-    req = request([f], param, extra_dep_modules=mods)
+    req = request(files, param, extra_dep_modules=mods)
     desc.gate(req)
     return req, of
 
@@ -171,7 +184,7 @@ def build(st, transport):
 def make_job(st, transport):
     req, of = build(st, transport)
     return dict(id=f'{st["id"]}|{transport}', req=req.SerializeToString(), opt_files=of, probe='mc.probes.mixins',
-                probe_args=dict(package=names.import_package(P), transport=transport, canon={k: list(v) for k, v in CANON.items()},
+                probe_args=dict(package=names.import_package(P) + ('.api' if st.get('layout') == 'subpackages' else ''), transport=transport, canon={k: list(v) for k, v in CANON.items()},
                                 rules={k: [v[0], v[1], v[2], [list(x) for x in v[3]]] for k, v in RULES.items()}, values=VALUES,
                                 legacy=st['legacy'], own_iam=st['own_iam'], ruled=st['ruled'], service=('BaseLib' if st.get('selective') and st['selective'][0] else st.get('own_svc', 'Lib')),
                                 own_path=f'/{P}.{st.get("own_svc", "Lib")}/SetIamPolicy'),
